@@ -55,15 +55,16 @@ def install_pathlib(v):
             A = A.val
         pt, At = path_term(pth), path_term(A)
         ex.emit_raise(p, "ValueError", node, extra=z3.Not(UNDER(pt, At)))
-        q = p.fork(UNDER(pt, At)).assume(*path_axioms([At], [pt]))
-        return [(q, Opq("Path", REL(pt, At)))]
+        ex.bg_local(p, path_axioms([At], [pt]))     # axioms of the (assumed) path algebra: background, not path facts
+        return [(p.fork(UNDER(pt, At)), Opq("Path", REL(pt, At)))]
 
     def h_truediv(ex, p, args, kw, node):
         A, x = args
         if isinstance(A, Opt):
             A = A.val
         At, xt = path_term(A), path_term(x)
-        return [(p.assume(*path_axioms([At], [xt])), Opq("Path", JOIN(At, xt)))]
+        ex.bg_local(p, path_axioms([At], [xt]))
+        return [(p, Opq("Path", JOIN(At, xt)))]
 
     v.handlers["pathlib.Path"] = h_path
     v.handlers["method:Path.relative_to"] = h_relative_to
